@@ -5,7 +5,7 @@
    Only statements; every proof is `exact <lemma>`. *)
 From Coq Require Import List ZArith QArith Qcanon Bool Arith.
 From Dimod Require Import Base.Util Model.Poly Model.Comb Gen.Gen_Gates Model.Gates
-  Proofs.GatesFacts Props.Comb Model.Knap Proofs.KnapFacts Model.MultCircuit Proofs.MultFacts Proofs.MultArith Proofs.MultAttain Proofs.MultAll Model.Qap Proofs.QapFacts Model.Magic Proofs.MagicFacts Model.Sat Proofs.SatFacts.
+  Proofs.GatesFacts Props.Comb Gen.Gen_Combinations Proofs.CombRule Model.Knap Proofs.KnapFacts Model.MultCircuit Proofs.MultFacts Proofs.MultArith Proofs.MultAttain Proofs.MultAll Model.Qap Proofs.QapFacts Model.Magic Proofs.MagicFacts Model.Sat Proofs.SatFacts.
 Import ListNotations.
 
 (* energy 0 on exactly the rows of the truth table, >= 1 on every other row (strength 1) *)
@@ -72,6 +72,19 @@ Theorem C17_combinations :
     (count_true x <> k -> (1 <= combinations_energy k x)%Z).
 Proof. exact C17_combinations_energy. Qed.
 Print Assumptions C17_combinations.
+
+(* the coefficient rule TRANSLATED from the source (every variable comb_lbias, every pair comb_qbias,
+   offset comb_offset) is strength * (sum x - k)^2, for all n, k and (integer) strength *)
+Theorem C17_combinations_rule :
+  forall s k x,
+    comb_rule_energy s k x = (s * ((count_true x - k) * (count_true x - k)))%Z.
+Proof. exact comb_rule_square. Qed.
+Print Assumptions C17_combinations_rule.
+
+Theorem C17_combinations_rule_model :
+  forall s k x, comb_rule_energy s k x = (s * combinations_energy k x)%Z.
+Proof. exact comb_rule_model. Qed.
+Print Assumptions C17_combinations_rule_model.
 
 (* independent-set family: energy = strength * (#listed edges inside the set) - selected weight *)
 Theorem C17_mwis_energy :
